@@ -667,9 +667,24 @@ fn alloc_div() -> u64 {
     *D.get_or_init(|| std::env::var("VERIF_C04_ALLOC_DIV").ok().and_then(|s| s.parse().ok()).unwrap_or(1))
 }
 
+/// `VERIF_C04_DUMP_INPUT=<dir>`: every decided input is also written there in
+/// the fuzz target's format (selector octet + input). Meant for `--replay`, to
+/// turn a regress case into a file for /verif/regress/fuzz-der_decoders/.
+fn dump_dir() -> &'static Option<String> {
+    static D: OnceLock<Option<String>> = OnceLock::new();
+    D.get_or_init(|| std::env::var("VERIF_C04_DUMP_INPUT").ok())
+}
+
 /// Decides one input. Returns the walk outcome.
 fn decide(entry: u8, strict: bool, data: &[u8], obs: &mut Obs) -> Result<walk::Outcome, Fail> {
     let _ = walk::fixed();
+    if let Some(dir) = dump_dir() {
+        let mut f = vec![walk::selector(entry, strict)];
+        f.extend_from_slice(data);
+        let h = keys::sha256(&f);
+        let _ = std::fs::create_dir_all(dir);
+        let _ = std::fs::write(format!("{}/{}-{:02x}{:02x}{:02x}{:02x}", dir, walk::ENTRIES[entry as usize % walk::ENTRIES.len()].0, h[0], h[1], h[2], h[3]), f);
+    }
     let (res, stats) = walk::measure(|| no_panic("decode+walk", || walk::decode_and_walk(entry, strict, data)));
     let out = match res {
         Ok(o) => o,
